@@ -244,6 +244,7 @@ pub fn convert(d: &StoreDump) -> Dump {
             Some(c) => {
               let any = c.as_ref().as_any();
               if let Some(c) = any.downcast_ref::<Chk>() { format!("{:?}", c) }
+              else if let Some(c) = any.downcast_ref::<crate::cell::ChkU>() { format!("{:?}", c) }
               else if let Some(c) = any.downcast_ref::<OChk>() { format!("{:?}", c) }
               else { format!("?{:?}", c) }
             }
@@ -252,7 +253,7 @@ pub fn convert(d: &StoreDump) -> Dump {
             None => 0,
             Some(s) => {
               let any = s.as_ref().as_any();
-              if let Some(s) = any.downcast_ref::<St>() { s.0 } else if let Some(s) = any.downcast_ref::<OSt>() { s.0 } else { i32::MIN }
+              if let Some(s) = any.downcast_ref::<St>() { s.0 } else if let Some(s) = any.downcast_ref::<OSt>() { s.0 } else if any.downcast_ref::<()>().is_some() { 0 } else { i32::MIN }
             }
           };
           decls.push(Decl { kind, target, chk, stamp });
